@@ -3,9 +3,10 @@ import json
 import os
 import re
 
-from vlib import build, gen, runner
+from vlib import build, cbor, cdns_schema, gen, rewrite, runner
 from vlib.findings import Violation
-from .common import sample_of
+from .common import ExportRun, sample_of
+from . import c07
 
 PROP, LEVEL = 'C20', 'exploration'
 
@@ -19,6 +20,48 @@ def make_cases(seed, run, n):
         cases.append(gen.gen_history(r, 'r%dw%03d' % (run, i), preamble=pre, comp=comp, kind=r.choice(['name', 'fd']), nops=r.choice([10, 40, 120]), big=(i % 5 == 0),
                                      weights=dict(rotate=4, rotate_bad=2)))
     return cases
+
+
+def foreign_inputs(seed, wd):
+    """C-DNS files in encodings the library's own encoder never emits (every string chunked, containers indefinite, heads widened,
+    maps permuted, unknown members with nested values), written under wd.  -> (paths, counts of applied rewrites, violations)"""
+    cases = []
+    for i in range(16):
+        r = gen.seeded(seed, 'C20f', i)
+        pre = gen.gen_preamble(r, rich=(i % 2 == 1), nbps=r.choice([1, 2]))
+        for bp in pre['bps']:
+            if bp['tps'] == 0 or bp['tps'] > 10 ** 9:
+                bp['tps'] = 1000
+        cases.append(gen.gen_history(r, 'f%02d' % i, comp='none', kind='name', rotations=False, nops=r.choice([10, 30, 60]), preamble=pre))
+    er = ExportRun(PROP, cases, 'c20f', need_lib_read=False)
+    paths, totals = [], {k: 0 for k in rewrite.KINDS}
+    try:
+        n = 0
+        for pc in er.per_case:
+            if not pc:
+                continue
+            for o in pc['outs']:
+                if not (o.data and o.id in pc['docs']):
+                    continue
+                for j in range(2):
+                    r = gen.seeded(seed, 'C20fr', n, j)
+                    try:
+                        new, counts = rewrite.rewrite(r, o.data, None, p=0.9, value_gen=lambda rr: c07.rand_item(rr, 0, rr.choice([1, 3, 6])))
+                        a, b = cdns_schema.parse(o.data), cdns_schema.parse(new)
+                        if a.preamble != b.preamble or a.blocks != b.blocks:
+                            continue
+                    except (cbor.CborError, cdns_schema.SchemaError):
+                        continue
+                    for k, v in counts.items():
+                        totals[k] += v
+                    p = os.path.join(wd, 'foreign_%03d_%d.cdns' % (n, j))
+                    with open(p, 'wb') as f:
+                        f.write(new)
+                    paths.append(p)
+                n += 1
+    finally:
+        er.close()
+    return paths, totals, []
 
 
 def load_results(path, wd):
@@ -76,8 +119,14 @@ def run(tier, seed):
     total_jobs = overlaps = reports_total = compared_files = calls = interleaved = 0
     threads_seen = set()
     samples = []
+    wd_f = runner.workdir('c20f')
+    foreign, foreign_counts, _ = foreign_inputs(seed, wd_f)
+    foreign_reads = 0
     for run_i, (T, n) in enumerate(plan):
         cases = make_cases(seed, run_i, n)
+        if foreign:
+            for ci, c in enumerate(cases):
+                c['foreign'] = [foreign[(ci * 3 + k + run_i) % len(foreign)] for k in range(3)]
         if not samples:
             samples = [sample_of(cases[0], 3)]
         wd_seq, wd_mt = runner.workdir('c20s'), runner.workdir('c20m')
@@ -111,6 +160,10 @@ def run(tier, seed):
                     continue
                 total_jobs += 1
                 calls += len(b['log'])
+                foreign_reads += len(b.get('foreign_reads') or [])
+                for fr in (b.get('foreign_reads') or []):
+                    if fr.get('hdr') != 'ok' or fr.get('end') != 'eof':
+                        vs.append(Violation(PROP, '%s:foreign-input-unreadable' % PROP, 'workload %s (%d threads): a valid re-encoded file was not read to its end (%s / %s)' % (c['id'], T, fr.get('hdr'), fr.get('end')), {'case': c, 'threads': T}))
                 for which, x in (('sequential', a), ('threaded', b)):
                     if x.get('interleaved') is not None:
                         interleaved += 1
@@ -118,7 +171,7 @@ def run(tier, seed):
                             vs.append(Violation(PROP, '%s:interleaved-readers' % PROP, 'workload %s (%s run): two readers alive on one thread and used alternately do not return what each returns alone (%s)' % (c['id'], which, x['interleaved']), {'case': c, 'threads': T}))
                 iv.append((b['t0'], b['t1'], b['tid']))
                 if strip(a) != strip(b):
-                    part = 'log' if a['log'] != b['log'] else 'decoded-records'
+                    part = 'log' if a['log'] != b['log'] else ('decoded-records' if a.get('reads') != b.get('reads') else 'decoded-foreign-input')
                     vs.append(Violation(PROP, '%s:differs-from-sequential:%s' % (PROP, part), 'workload %s: %s of the threaded run (%d threads) differ from the sequential run' % (c['id'], part, T), {'case': c, 'threads': T}))
                     continue
                 for e in b['log']:
@@ -141,14 +194,17 @@ def run(tier, seed):
         finally:
             runner.cleanup(wd_seq)
             runner.cleanup(wd_mt)
-    obs = dict(runs=len(plan), thread_counts=sorted(threads_seen), workloads_compared=total_jobs, api_calls_in_threaded_runs=calls, overlapping_workload_pairs_on_different_threads=overlaps,
+    runner.cleanup(wd_f)
+    obs = dict(foreign_inputs=len(foreign), foreign_rewrites=foreign_counts, foreign_reads_in_threaded_runs=foreign_reads, runs=len(plan), thread_counts=sorted(threads_seen), workloads_compared=total_jobs, api_calls_in_threaded_runs=calls, overlapping_workload_pairs_on_different_threads=overlaps,
                tsan_report_blocks=reports_total, output_files_compared_bytewise=compared_files, reader_pairs_used_alternately_on_one_thread=interleaved)
     cov = dict(evaluations=total_jobs, distinct_nontrivial=total_jobs,
-               rule='independent export (plain/gzip/xz, name/fd) + read-back + render workloads assigned round-robin to N threads of one process built with -fsanitize=thread, random yields/sleeps between workloads; '
+               rule='independent export (plain/gzip/xz, name/fd) + read-back + render workloads, plus three re-encoded foreign inputs (chunked strings, indefinite containers, widened heads, unknown members) decoded per workload, assigned round-robin to N threads of one process built with -fsanitize=thread, random yields/sleeps between workloads; '
                     'oracle: zero ThreadSanitizer report blocks; API logs, decoded dumps and output bytes identical to the same workloads run on one thread; every workload is a distinct seeded history',
                samples=samples, observed=obs)
     inc = None
     if overlaps == 0:
         inc = 'no two workloads on different threads overlapped in time'
+    elif not foreign or foreign_counts.get('indef_string', 0) == 0 or foreign_reads == 0:
+        inc = 'no re-encoded (chunked / indefinite / unknown-member) input was decoded in the threaded runs'
     return dict(violations=vs, coverage=cov, inconclusive=inc,
                 assumptions=['zlib, liblzma and libstdc++ are not TSan-instrumented: a race inside them would be invisible'])
